@@ -196,6 +196,8 @@ def plan(ctx):
     quick = ctx.tier == "quick"
     spaces = [("F1", 1), ("X2", 2)] + ([("K3", 4)] if quick else [("F2", 6), ("X3", 48)])
     tasks = sweep.plan_routes("checks.C03", routes.NAMES, spaces) + sweep.plan_routes("checks.C03", routes.NAMES_SUB, [("F1", 1), ("X2", 2)])
+    tasks += sweep.plan_ctx("checks.C03", ctx.tier, BACKENDS)
+    ctx.notes["context_routes"] = sweep.ctx_note()
     q, _ = impl.discover_quoter_configs(ctx.build["pkg"])
     rq = [n for n, kw in q.items() if kw.get("requote", True)]
     qspaces = [("F2", 2), ("X3", 8)] + ([] if quick else [("K4", 16)])
